@@ -135,6 +135,22 @@ func (E *Engine) stableKeys() map[string]*StableField {
 		if sp == nil {
 			continue
 		}
+		if sf.TypePrefix != "" {
+			for _, name := range sp.Pkg.Scope().Names() {
+				tn, ok := sp.Pkg.Scope().Lookup(name).(*types.TypeName)
+				if !ok || !strings.HasPrefix(name, sf.TypePrefix) {
+					continue
+				}
+				st, ok := tn.Type().Underlying().(*types.Struct)
+				if !ok {
+					continue
+				}
+				for i := 0; i < st.NumFields(); i++ {
+					E.stable[fieldKeyOf(tn.Type(), i)] = sf
+				}
+			}
+			continue
+		}
 		tn, ok := sp.Pkg.Scope().Lookup(sf.Type).(*types.TypeName)
 		if !ok {
 			continue
@@ -155,10 +171,18 @@ func (E *Engine) stableKeys() map[string]*StableField {
 // stableObligations: every store to a stable field is rooted at an allocation of the same
 // function or happens in a listed writer.
 func (E *Engine) stableObligations(p string, enc *FnEnc) {
+	keysOf := map[*StableField]map[string]bool{}
 	for key, sf := range E.stableKeys() {
+		if keysOf[sf] == nil {
+			keysOf[sf] = map[string]bool{}
+		}
+		keysOf[sf][key] = true
+	}
+	for _, sf := range E.CS.StableFields {
 		if !hasProp(sf.Props, p) {
 			continue
 		}
+		keys := keysOf[sf]
 		var bad []string
 		for _, fk := range E.L.sortedFuncKeys() {
 			fn := E.L.Funcs[fk]
@@ -179,23 +203,43 @@ func (E *Engine) stableObligations(p string, enc *FnEnc) {
 					}
 					w := map[string]bool{}
 					addrKeys(st.Addr, w)
-					if !w[key] {
+					hit := false
+					for k := range w {
+						if keys[k] {
+							hit = true
+						}
+					}
+					if !hit {
 						continue
 					}
 					if _, fresh := addrRoot(st.Addr).(*ssa.Alloc); fresh {
 						continue
 					}
-					bad = append(bad, fmt.Sprintf("%s (%s)", fk, E.L.Prog.Fset.Position(st.Pos())))
+					pos := E.L.Prog.Fset.Position(st.Pos())
+					exempt := false
+					for _, f := range sf.Files {
+						if strings.HasSuffix(pos.Filename, "/"+f) {
+							exempt = true
+						}
+					}
+					if exempt {
+						continue
+					}
+					bad = append(bad, fmt.Sprintf("%s (%s:%d)", fk, strings.TrimPrefix(pos.Filename, repoDir+"/"), pos.Line))
 				}
 			}
 		}
+		what := sf.Type + "." + sf.Field
+		if sf.TypePrefix != "" {
+			what = fmt.Sprintf("%s* (%d fields)", sf.TypePrefix, len(keys))
+		}
 		cond := "true"
-		text := fmt.Sprintf("%s.%s is assigned only in freshly allocated objects (writers exempt: %s)", sf.Type, sf.Field, strings.Join(sf.Writers, ", "))
+		text := fmt.Sprintf("%s: assigned only in freshly allocated objects (exempt writers: %s; exempt files: %s)", what, strings.Join(sf.Writers, ", "), strings.Join(sf.Files, ", "))
 		if len(bad) > 0 {
 			cond = "false"
 			text += " -- but also stored by: " + strings.Join(bad, "; ")
 		}
-		enc.obls = append(enc.obls, &Obl{Name: fmt.Sprintf("%s#frame.stable[%s.%s]", sf.Pkg, sf.Type, sf.Field), Kind: "frame.stable", Func: "lemmas",
+		enc.obls = append(enc.obls, &Obl{Name: fmt.Sprintf("%s#frame.stable[%s]", sf.Pkg, what), Kind: "frame.stable", Func: "lemmas",
 			Props: sf.Props, PC: "true", Cond: cond, Pos: fmt.Sprintf("%s:%d", strings.TrimPrefix(sf.File, repoDir+"/"), sf.Line), Text: text, enc: enc, Trivial: cond == "true"})
 	}
 }
